@@ -1,4 +1,5 @@
 import Model.Widths
+import Model.WidthsHist
 import Proofs.Widths
 import Generated.Constants
 /-!
@@ -12,7 +13,7 @@ spanning rows, footnote/source rows).  Floats are exact rationals; `twip x = rou
 All statements hold for width lists of any length and every positive table width.
 -/
 namespace Props.C08
-open Model.Widths Proofs.Widths
+open Model.Widths Model.WidthsHist Proofs.Widths
 
 /-- the constant the model hard-wires is the one in `core/constants.py` (regenerated every run) -/
 theorem C08_twips_per_inch : Generated.twipsPerInch = 1440 := by decide
@@ -224,6 +225,45 @@ theorem C08_sections_memo_witness :
     dataRow [1, 1, 1, 1] [true, true] (25 / 4) = .ok [2250, 4500] ∧
     (constructSections [none] [(0, 4), (0, 2)]).1 = [[1, 1, 1, 1], [1, 1]] ∧
     dataRow [1, 1] [true, true] (25 / 4) = .ok [4500, 9000] := by
+  decide +kernel
+
+/-! ## history: a page object that was used, then re-configured -/
+
+/-- Whatever a page object went through — documents encoded with it, `col_width` written or copy-updated, other options
+written, plain copies — it holds the table width configured last, and the encoder has kept nothing on it: … -/
+theorem C08_page_history (p : PageObj) (ops : List PageOp) :
+    (pageRun p ops).colWidth = configuredWidth p.colWidth ops ∧ (pageRun p ops).kept = p.kept := by
+  induction ops generalizing p with
+  | nil => exact ⟨rfl, rfl⟩
+  | cons o ops ih =>
+    cases o with
+    | setWidth w =>
+      have := ih { p with colWidth := w }
+      simpa [pageRun, pageStep, configuredWidth] using this
+    | other => simpa [pageRun, pageStep, configuredWidth] using ih p
+    | encode => simpa [pageRun, pageStep, configuredWidth] using ih p
+
+/-- … so every row kind of the document encoded next (group spanning rows included) ends at the twips of the width
+configured THEN, not of a width the object had when an earlier document used it. -/
+theorem C08_page_history_rows (w0 : Rat) (ops : List PageOp) (s : Section)
+    (hW : s.W = widthUsed (pageRun { colWidth := w0 } ops)) (hwf : WFSection s) :
+    ∃ rows, sectionRows s = .ok rows ∧
+      (∀ r ∈ rows, r.2.getLast? = some (twip (configuredWidth w0 ops))) ∧
+      checkRows 0 (configuredWidth w0 ops) (bodyProcessed (resolveBody s.userW s.ncol) s.keep) rows = [] := by
+  have hc : s.W = configuredWidth w0 ops := by
+    rw [hW]; exact (C08_page_history { colWidth := w0 } ops).1
+  rw [← hc]
+  exact C08_section s hwf
+
+/-- What keeping the table width on the object would do (not the code): a landscape page (8.5 in) encoded once, then
+copy-updated to 9.5 in and encoded again lays the group spanning rows of the second document out at 12240 twips while
+the configured width is 13680. -/
+theorem C08_page_keep_witness :
+    let ops := [PageOp.encode, PageOp.setWidth (19 / 2), PageOp.encode]
+    spanRow (widthUsedKeep (pageRunKeep { colWidth := 17 / 2 } ops)) = [12240] ∧
+    twip (configuredWidth (17 / 2) ops) = 13680 ∧
+    spanRow (widthUsed (pageRun { colWidth := 17 / 2 } ops)) = [13680] ∧
+    widthsAtEncodes (17 / 2) ops = [17 / 2, 19 / 2] := by
   decide +kernel
 
 /-! ## non-vacuity -/
